@@ -63,29 +63,45 @@ def strLt (a b : Str) : Prop := a < b
 
 /-! ### Part 2 — the spellings -/
 
-/-- One line of an enum's specification. -/
+open Lean in
+/-- `b!"text"`: the UTF-8 bytes of a string literal as a list literal. Expanded when the file is
+elaborated, so the kernel never evaluates `String` operations when it compares these lists with
+the extracted tables (which is what made `decide` on 440 spellings slow). -/
+macro "b!" s:str : term => do
+  let bytes : Array (TSyntax `term) :=
+    (s.getString.toUTF8.toList.map
+      (fun b => (Syntax.mkNumLit (toString b.toNat) : TSyntax `term))).toArray
+  `(([$bytes,*] : List Nat))
+
+/-- One line of an enum's specification (texts as UTF-8 bytes). -/
 inductive Entry where
   /-- `v Variant spelling`: the specified spelling of a documented variant -/
-  | v (variant spelling : String)
+  | v (variant : String) (spelling : Str)
   /-- `a Variant alias`: a declared alternative spelling of a variant listed above -/
-  | a (variant alias : String)
+  | a (variant : String) (alias : Str)
   /-- `w Variant pattern`: a wildcard type; `pattern` ends in `.*`, the variant keeps the suffix -/
-  | w (variant pattern : String)
+  | w (variant : String) (pattern : Str)
   deriving Repr
+
+/- The line syntax of part 2: `v "Variant" "spelling"` etc., both texts written as plain string
+literals. Only opened around the data below. -/
+namespace Lines
+scoped macro "v " l:str s:str : term => `(Entry.v $l (b! $s))
+scoped macro "a " l:str s:str : term => `(Entry.a $l (b! $s))
+scoped macro "w " l:str s:str : term => `(Entry.w $l (b! $s))
+end Lines
 
 structure EnumSpec where
   name : String
   entries : List Entry
   deriving Repr
 
-open Entry
-
 /-- The implementation's table `tbl` has this entry: the spelling with its dedicated variant, the
 alias on the row of its variant, the wildcard prefix as a wildcard row. -/
 def EntryIn (tbl : Table) : Entry → Prop
-  | .v l s => ∃ r ∈ tbl, r.label = l ∧ r.spelling = bs s ∧ r.wildcard = false
-  | .w l p => ∃ r ∈ tbl, r.label = l ∧ r.spelling = (bs p).dropLast ∧ r.wildcard = true
-  | .a l s => ∃ r ∈ tbl, r.label = l ∧ bs s ∈ r.aliases
+  | .v l s => ∃ r ∈ tbl, r.label = l ∧ r.spelling = s ∧ r.wildcard = false
+  | .w l p => ∃ r ∈ tbl, r.label = l ∧ r.spelling = p.dropLast ∧ r.wildcard = true
+  | .a l s => ∃ r ∈ tbl, r.label = l ∧ s ∈ r.aliases
 
 instance (tbl : Table) (e : Entry) : Decidable (EntryIn tbl e) := by
   cases e <;> (unfold EntryIn; infer_instance)
@@ -99,9 +115,9 @@ def addAlias (label : String) (al : Str) : Table → Table
 /-- The table a list of entries describes (rows in the order of their `v`/`w` lines). -/
 def toTable : List Entry → Table → Table
   | [], acc => acc
-  | .v l s :: es, acc => toTable es (acc ++ [⟨l, bs s, [], false⟩])
-  | .w l p :: es, acc => toTable es (acc ++ [⟨l, (bs p).dropLast, [], true⟩])
-  | .a l s :: es, acc => toTable es (addAlias l (bs s) acc)
+  | .v l s :: es, acc => toTable es (acc ++ [⟨l, s, [], false⟩])
+  | .w l p :: es, acc => toTable es (acc ++ [⟨l, p.dropLast, [], true⟩])
+  | .a l s :: es, acc => toTable es (addAlias l s acc)
 
 def EnumSpec.table (e : EnumSpec) : Table := toTable e.entries []
 
@@ -110,8 +126,11 @@ def EnumSpec.table (e : EnumSpec) : Table := toTable e.entries []
 def entriesOk : List Entry → List String → Bool
   | [], _ => true
   | .v l _ :: es, seen => !seen.contains l && entriesOk es (l :: seen)
-  | .w l p :: es, seen => !seen.contains l && (bs ".*").isSuffixOf (bs p) && entriesOk es (l :: seen)
+  | .w l p :: es, seen => !seen.contains l && (b!".*").isSuffixOf p && entriesOk es (l :: seen)
   | .a l _ :: es, seen => seen.contains l && entriesOk es seen
+
+section Data
+open Lines
 
 /-- `ruma_push_gateway_api::send_event_notification::v1::NotificationPriority` -/
 def notificationPriority : EnumSpec := ⟨"NotificationPriority", [
@@ -870,6 +889,8 @@ def toDeviceEventType : EnumSpec := ⟨"ToDeviceEventType", [
   v "SecretRequest" "m.secret.request",
   v "SecretSend" "m.secret.send"
 ]⟩
+
+end Data
 
 /-- Every enum the check covers. -/
 def all : List EnumSpec := [
